@@ -420,18 +420,25 @@ func (t *spTr) withBound(names []string, f func()) {
 	}
 }
 
-func (t *spTr) stmts(list []ast.Stmt, closureTop bool) string {
-	var sb strings.Builder
+func (t *spTr) stmtList(list []ast.Stmt, closureTop bool) []string {
+	var out []string
 	for i := 0; i < len(list); i++ {
 		if as, ok := list[i].(*ast.AssignStmt); ok && as.Tok == token.DEFINE && len(as.Lhs) == 1 && spIdent(as.Lhs[0], "SiZeMaP") {
 			if i+1 >= len(list) {
 				t.fail(as, "SiZeMaP closure without the iteration that calls it")
 			}
-			sb.WriteString(" " + t.mapBlock(as, list[i+1]))
+			out = append(out, t.mapBlock(as, list[i+1]))
 			i++
 			continue
 		}
-		sb.WriteString(" " + t.stmt(list[i], closureTop))
+		out = append(out, t.stmt(list[i], closureTop))
+	}
+	return out
+}
+func (t *spTr) stmts(list []ast.Stmt, closureTop bool) string {
+	var sb strings.Builder
+	for _, s := range t.stmtList(list, closureTop) {
+		sb.WriteString(" " + s)
 	}
 	return sb.String()
 }
@@ -599,14 +606,14 @@ func (t *spTr) mapBlock(as *ast.AssignStmt, next ast.Stmt) string {
 }
 
 // translate the size closure of one message type
-func spTranslate(pkg *spPkg, mi *msgInfo) (prog string, failure string) {
+func spTranslate(pkg *spPkg, mi *msgInfo) (prog []string, failure string) {
 	if pkg.err != nil {
-		return "", "untranslatable:-:" + pkg.err.Error()
+		return nil, "untranslatable:-:" + pkg.err.Error()
 	}
 	tname := mi.goType.Name()
 	ms := pkg.methods[tname]
 	if len(ms) != 1 {
-		return "", fmt.Sprintf("untranslatable:-:%d declarations of fastReflection_%s.ProtoMethods", len(ms), tname)
+		return nil, fmt.Sprintf("untranslatable:-:%d declarations of fastReflection_%s.ProtoMethods", len(ms), tname)
 	}
 	m := ms[0]
 	t := &spTr{pkg: pkg, f: m.f, plain: map[string]int{}, oneofs: map[string]int{}, wrappers: map[string]int{}, payload: map[int]string{}, caseOf: -1, bound: map[string]bool{}}
@@ -626,7 +633,7 @@ func spTranslate(pkg *spPkg, mi *msgInfo) (prog string, failure string) {
 				panic(e)
 			}
 			p := pkg.fset.Position(se.pos)
-			prog, failure = "", fmt.Sprintf("untranslatable:%s:%d:%d:%s", filepath.Base(p.Filename), p.Line, p.Column, se.why)
+			prog, failure = nil, fmt.Sprintf("untranslatable:%s:%d:%d:%s", filepath.Base(p.Filename), p.Line, p.Column, se.why)
 		}
 	}()
 	pi := m.f.imports[spProtoifacePath]
@@ -689,7 +696,7 @@ func spTranslate(pkg *spPkg, mi *msgInfo) (prog string, failure string) {
 	if !spSame(t.text(cl[len(cl)-1]), epilogue) {
 		t.fail(cl[len(cl)-1], "the size closure does not end in return SizeOutput{…, Size: n}")
 	}
-	return "(prog" + t.stmts(cl[7:len(cl)-1], false) + ")", ""
+	return t.stmtList(cl[7:len(cl)-1], false), ""
 }
 
 func engineSizeProg(cfg config, o *out) {
@@ -700,14 +707,25 @@ func engineSizeProg(cfg config, o *out) {
 		g := &vgen{r: r, si: si, nilElems: true}
 		for _, mi := range si.roots() {
 			args := []string{si.id, fmt.Sprint(mi.idx)}
-			prog, failure := spTranslate(spPkgOf(mi), mi)
+			stmts, failure := spTranslate(spPkgOf(mi), mi)
 			if failure != "" {
-				o.kase("SIZEPROG", args, failure)
+				o.kase("SIZEPROG", append(args, "len"), failure)
 				o.count("untranslatable")
 				continue
 			}
-			o.kase("SIZEPROG", args, prog)
-			o.kase("@SIZEDEF", []string{si.id, fmt.Sprint(mi.idx), prog}, "ok")
+			// one line per top-level statement (a difference is reported with the two statements side by side), one for their number,
+			// and the whole program as a context line for the SIZERUN lines below
+			for k, s := range stmts {
+				o.kase("SIZEPROG", append(args, strconv.Itoa(k)), s)
+			}
+			o.kase("SIZEPROG", append(args, "len"), strconv.Itoa(len(stmts)))
+			prog := "(prog"
+			for _, s := range stmts {
+				prog += " " + s
+			}
+			prog += ")"
+			o.kase("@SIZEDEF", append(args, prog), "ok")
+			o.kase("SIZEPROG", append(args, "eqb"), "same")
 			o.count("translated")
 			o.nontrivial("prog/" + prog)
 			for _, form := range []string{"(=", "(:=", "(+=", "(if", "(for", "(map", "(switch", "(case"} {
